@@ -35,6 +35,25 @@ def make_case(i, rng, tier):
             "faults": recs, "tasks": tasks, "schedule": sched}
 
 
+_USB = None
+
+
+def _unions_selected_by():
+    """selector field type -> union types it selects (from the struct layouts)"""
+    global _USB
+    if _USB is None:
+        L = layout()
+        m = {}
+        for n, t in L.types.items():
+            if t.get("kind") == "struct" and t.get("selectors"):
+                ftypes = {f["name"]: f["type"] for f in t["fields"]}
+                for ufield, sfield in t["selectors"].items():
+                    if isinstance(ftypes.get(sfield), str) and isinstance(ftypes.get(ufield), str):
+                        m.setdefault(ftypes[sfield], set()).add(ftypes[ufield])
+        _USB = m
+    return _USB
+
+
 def justified_value_error(t):
     """an escaping ValueConstraintViolatedError must name an unknown command code or a selector without member"""
     e = t.exc
@@ -55,10 +74,11 @@ def justified_value_error(t):
         return (v not in L.commands), "command code 0x%x is in the command table" % v
     if tn in L.types and L.types[tn]["kind"] == "union":
         return (L.union_select(tn, v) is None), "selector %s selects a member of %s" % (v, tn)
-    # selector type named instead of the union: accept if some union selected by this type has no member for v
-    for un, ut in L.types.items():
-        if ut["kind"] == "union" and L.union_select(un, v) is None and not L.valid(tn, v) if tn in L.types and L.types[tn]["kind"] == "prim" else False:
-            return True, ""
+    # selector type named instead of the union: accept if a union that is *selected by a field of this type* has no member for v
+    if tn in L.types and L.types[tn]["kind"] == "prim" and not L.valid(tn, v):
+        for un in _unions_selected_by().get(tn, ()):
+            if L.union_select(un, v) is None:
+                return True, ""
     return False, "neither an unknown command code nor a selector without member (type %s value %s)" % (tn, v)
 
 
